@@ -235,6 +235,8 @@ def replay_states(sc):
 def h_pair2d(ctx, name, B, ymax=None, fork_roots=False):
     cls = PAIRINGS[name]
     ctx.fork_roots = fork_roots
+    if fork_roots:
+        ctx.max_int_fanout = 2048  # one path per value of the integer root
     x = ctx.int("x", 0, B)
     y = ctx.int("y", 0, B if ymax is None else ymax)
     ctx.hints += [V.to_term(x), V.to_term(y)]
@@ -247,6 +249,8 @@ def h_pair2d(ctx, name, B, ymax=None, fork_roots=False):
 def h_proj2d(ctx, name, B2, fork_roots=False):
     cls = PAIRINGS[name]
     ctx.fork_roots = fork_roots
+    if fork_roots:
+        ctx.max_int_fanout = 2048
     z = ctx.int("z", 0, B2)
     x, y = cls.projection2d(z)
     zz = cls.pairing2d(x, y)
@@ -538,7 +542,7 @@ def harnesses(tier):
     for name in ("RosenbergStrong", "Szudzik"):
         hs.append(Harness(f"pair2d.{name}", h_pair2d, {"name": name, "B": None}))
         hs.append(Harness(f"proj2d.{name}", h_proj2d, {"name": name, "B2": None}))
-    hs.append(Harness("pair2d.Cantor", h_pair2d, {"name": "Cantor", "B": 16 if q else 64, "fork_roots": True}, max_paths=2000))
+    hs.append(Harness("pair2d.Cantor", h_pair2d, {"name": "Cantor", "B": 16 if q else 32, "fork_roots": True}, max_paths=2000))
     hs.append(Harness("proj2d.Cantor", h_proj2d, {"name": "Cantor", "B2": 256 if q else 2**14, "fork_roots": True}, max_paths=2000))
     hs.append(Harness("pair2d.PepisKalmar", h_pair2d, {"name": "PepisKalmar", "B": 2**8 if q else 2**20, "ymax": 6 if q else 16}, max_paths=400))
     hs.append(Harness("proj2d.PepisKalmar", h_proj2d, {"name": "PepisKalmar", "B2": 2**8 if q else 2**14}, max_paths=400))
@@ -571,10 +575,12 @@ def harnesses(tier):
     for L, R in ([(1, 2), (2, 1)] if q else [(1, 2), (2, 1), (1, 3), (3, 1), (2, 3)]):  # more states on one side of the origin than on the other
         hs.append(Harness(f"states2d.{L}.{R}", h_states, {"dim": 2, "L": L, "R": R}, max_paths=6000))
         hs.append(Harness(f"states2d.sound.{L}.{R}", h_states_sound, {"dim": 2, "L": L, "R": R}, max_paths=6000))
+    hs.append(Harness("states3d.1", h_states, {"dim": 3, "n": 1}, max_paths=6000))
     if not q:
         hs.append(Harness("states2d.2", h_states, {"dim": 2, "n": 2}, max_paths=6000))
         hs.append(Harness("states2d.sound.2", h_states_sound, {"dim": 2, "n": 2}, max_paths=6000))
-        hs.append(Harness("states3d.1", h_states, {"dim": 3, "n": 1}, max_paths=6000))
+        hs.append(Harness("states3d.sound.1", h_states_sound, {"dim": 3, "n": 1}, max_paths=20000))
+        hs.append(Harness("states3d.1.2", h_states, {"dim": 3, "L": 1, "R": 2}, max_paths=20000))
     hs.append(Harness("ieee.sqrt.52", h_sqrt_lemma, {"W": 52}))
     for name in ("RosenbergStrong", "Szudzik"):
         hs.append(Harness(f"ieee.proj.{name}.52", h_proj2d_fp, {"name": name, "W": 52}))
